@@ -184,8 +184,29 @@ def rule_pair(fx, rep):
     rep.rule("C15-PAIR", n, 11, ok, "board edit <-> accumulator update pairing; save/restore")
 
 
+def through_tuple_helper(fx, e):
+    """`helper(args).k` where the in-crate helper returns one tuple literal on its only path: the k-th component with the
+    helper's parameters replaced by the arguments (set_at / remove_at sharing a `contributions(sq, piece)` helper)."""
+    from facts import decision_paths, substitute_args
+    d = deep_strip(e)
+    if isinstance(d, tuple) and d and d[0] == "field" and str(d[2]).isdigit():
+        c = deep_strip(d[1])
+        hb = fx.body(c[1]) if isinstance(c, tuple) and c and c[0] == "call" and isinstance(c[1], str) else None
+        if hb is not None and hb.kind in ("Fn", "AssocFn"):
+            ps = [p for p in decision_paths(hb, 8) if p[1] is not None]
+            if len(ps) == 1 and not ps[0][0]:
+                r = deep_strip(ps[0][1])
+                if isinstance(r, tuple) and r[0] == "agg" and r[1] == "tuple" and int(d[2]) < len(r[2]):
+                    return substitute_args(r[2][int(d[2])], c[2])
+    return e
+
+
 def updates(fx, body):
     """[(field, sign, term_expr)] — accumulator field updates in an IEF method."""
+    return [(f, sg, through_tuple_helper(fx, t) if sg in "+-" else t, bb) for (f, sg, t, bb) in _updates(fx, body)]
+
+
+def _updates(fx, body):
     out = []
     # scalar: (*self).f = (Add|Sub)WithOverflow((*self).f, term).0
     for bb, j, s in body.stmts():
